@@ -99,7 +99,7 @@ Proof.
     destruct (toks _ hi); cbn [bind rmap]; [|reflexivity].
     f_equal. fl. reflexivity.
   - (* TBitAnd *) intros t IHt v alias c. cbn [toks render]. rewrite <- IHt.
-    destruct (toks c t); cbn [bind rmap]; [|reflexivity]. f_equal. fl. reflexivity.
+    destruct (toks _ t); cbn [bind rmap]; [|reflexivity]. f_equal. fl. reflexivity.
   - (* TIsNull *) intros t IHt alias c. cbn [toks render]. rewrite <- IHt.
     destruct (toks _ t); cbn [bind rmap]; [|reflexivity]. f_equal. fl. reflexivity.
   - (* TNotNull *) intros t IHt alias c. cbn [toks render]. rewrite <- IHt.
